@@ -5,7 +5,7 @@ from pathlib import Path
 META = {
     "level": "model_checking",
     "technique": "TLA+ model of a streaming length-prefixed decoder (varint header, arbitrary chunking, all frame sequences) model-checked with canaries; traces of the real prost_codec::Codec decoding real encoder output under every split point validated by TLC against the property-level framing spec",
-    "text": "TLC exhaustively checks the transcribed prost-codec decode algorithm over all sequences of up to 3 frames with payload lengths 0..5 (limit 3, 1- and 2-unit headers) under every chunking for: delivery of every in-limit frame in order, errors only at the first oversize frame and as soon as its header is complete, bounded buffering; two canaries (limit checked after buffering; incomplete header treated as error) are rejected. The real Codec<proto::Message> then decodes streams produced by the real encoder (frame sizes limit-1/limit/limit+1, zero-length, 1/2-byte prefix boundary) cut at every single split point, byte-wise and at every pair of split points, plus seeded random streams with junk tails, corrupted copies and adversarial varints; every decode result is validated by TLC against TraceFraming (the next encoded message exactly, no withholding, oversize rejected before its payload is fed, never a panic).",
+    "text": "TLC exhaustively checks the transcribed prost-codec decode algorithm over all sequences of up to 3 frames with payload lengths 0..5 (limit 3, 1- and 2-unit headers) under every chunking for: delivery of every in-limit frame in order, errors only at the first oversize frame and as soon as its header is complete, bounded buffering; two canaries (limit checked after buffering; incomplete header treated as error) are rejected. The real Codec<proto::Message> then decodes streams produced by the real encoder (frame sizes limit-1/limit/limit+1, zero-length, 1/2-byte prefix boundary) cut at every single split point, byte-wise and at every pair of split points, plus seeded random streams with junk tails, corrupted copies, adversarial varints and limits/declared lengths within a few units of usize::MAX; every decode result is validated by TLC against TraceFraming (the next encoded message exactly, no withholding, oversize rejected before its payload is fed, never a panic).",
     "note": "Message type is prost-codec's own test message (bytes field). Junk after the announced frames is only checked for absence of panics and of consumption on Ok(None).",
     "design_ref": "6/C57",
 }
